@@ -238,8 +238,11 @@ class Spec:
             else:
                 raise ValueError(kind)
         # initial guesses
+        self.initial_realised = []
         for tgt, val in self.initial:
-            ocp.set_initial(self.initial_target(tgt), self.initial_value(val))
+            v = self.initial_value(val)
+            self.initial_realised.append((tgt, val if isinstance(val, E) else v))
+            ocp.set_initial(self.initial_target(tgt), v)
         if self.solver:
             ocp.solver(self.solver)
         ocp.method(self.make_method())
@@ -249,8 +252,6 @@ class Spec:
         S = self.sym
         if isinstance(tgt, tuple):
             cat, i = tgt
-            if cat in ("x", "u", "z"):
-                return S[cat][i]
             return S[cat][i]
         return {"T": self.ocp.T, "t0": self.ocp.t0}[tgt]
 
